@@ -3,6 +3,8 @@ package cert
 import (
 	"container/list"
 	"crypto/sha256"
+	"encoding/binary"
+	"fmt"
 	"maps"
 	"slices"
 	"strings"
@@ -52,35 +54,49 @@ func (cache *Cache) evict() {
 	delete(cache.entries, key)
 }
 
+// cacheKey returns the cache key for a signature over the message(s) with the given digest.
+// Besides the signature bytes the key covers the claimed participants, because the same
+// signature bytes can be presented with a different set of claimed signers, and the
+// signature's concrete type, because the base implementations reject foreign types.
+func cacheKey(digest hotstuff.Hash, sig hotstuff.QuorumSignature) string {
+	var key strings.Builder
+	_, _ = fmt.Fprintf(&key, "%T|", sig)
+	_, _ = key.Write(digest[:])
+	participants := sig.Participants()
+	var n [4]byte
+	binary.LittleEndian.PutUint32(n[:], uint32(participants.Len()))
+	_, _ = key.Write(n[:])
+	participants.ForEach(func(id hotstuff.ID) {
+		_, _ = key.Write(id.ToBytes())
+	})
+	_, _ = key.Write(sig.ToBytes())
+	return key.String()
+}
+
 // Sign signs a message and adds it to the cache for use during verification.
 func (cache *Cache) Sign(message []byte) (sig hotstuff.QuorumSignature, err error) {
 	sig, err = cache.impl.Sign(message)
 	if err != nil {
 		return nil, err
 	}
-	var key strings.Builder
 	hash := sha256.Sum256(message)
-	_, _ = key.Write(hash[:])
-	_, _ = key.Write(sig.ToBytes())
-	cache.insert(key.String())
+	cache.insert(cacheKey(hash, sig))
 	return sig, nil
 }
 
 // Verify verifies the given quorum signature against the message.
 func (cache *Cache) Verify(signature hotstuff.QuorumSignature, message []byte) error {
-	var key strings.Builder
 	hash := sha256.Sum256(message)
-	_, _ = key.Write(hash[:])
-	_, _ = key.Write(signature.ToBytes())
+	key := cacheKey(hash, signature)
 
-	if cache.check(key.String()) {
+	if cache.check(key) {
 		return nil
 	}
 
 	if err := cache.impl.Verify(signature, message); err != nil {
 		return err
 	}
-	cache.insert(key.String())
+	cache.insert(key)
 
 	return nil
 }
@@ -97,18 +113,16 @@ func (cache *Cache) BatchVerify(signature hotstuff.QuorumSignature, batch map[ho
 	}
 	hasher.Sum(hash[:])
 
-	var key strings.Builder
-	_, _ = key.Write(hash[:])
-	_, _ = key.Write(signature.ToBytes())
+	key := cacheKey(hash, signature)
 
-	if cache.check(key.String()) {
+	if cache.check(key) {
 		return nil
 	}
 
 	if err := cache.impl.BatchVerify(signature, batch); err != nil {
 		return err
 	}
-	cache.insert(key.String())
+	cache.insert(key)
 	return nil
 }
 
